@@ -209,7 +209,9 @@ func Run(r *ev.Run) {
 		return map[byte]echx.KeyPair{
 			// T's config is not byte-identical to what this library's own encoder would write for the same fields
 			// (maximum_name_length 200, a non-mandatory extension): HPKE info is the config AS RECEIVED
-			'T': echx.NewKeyOpt("c09-T", 42, echx.AllSuites, targetPublicName, 200, []byte{0x12, 0x34, 0, 2, 0xaa, 0xbb}),
+			// ... and its suite list also names suites this package does not implement (HKDF-SHA384 with AES-256-GCM in front, an
+			// unassigned AEAD at the end): a key is usable for the suites it can be used with
+			'T': echx.NewKeyOpt("c09-T", 42, append(append([]tlsref.Suite{{KDF: 2, AEAD: 2}}, echx.AllSuites...), tlsref.Suite{KDF: 1, AEAD: 0xffff}), targetPublicName, 200, []byte{0x12, 0x34, 0, 2, 0xaa, 0xbb}),
 			// S: T's key pair in a SECOND, different config with the same id (key rotation that kept the key, or a second public name)
 			'S': echx.NewKey("c09-T", 42, echx.AllSuites, "second-public.example"),
 			// P: a valid ECH key of ANOTHER KEM (DHKEM(P-256), which crypto/tls serves and this library cannot use), same id and suites
